@@ -163,16 +163,9 @@ def _contexts(ca_file, via_folder, cyphers):
         cert, key = lk.CERT_DIR / 'test_certificate.pem', lk.CERT_DIR / 'test_private_key.pem'
         cy = 'ECDHE+AESGCM' if cyphers else None
         if via_folder:
-            import pathlib
-            import tempfile
-            with tempfile.TemporaryDirectory() as tmp:
-                if cyphers:
-                    pathlib.Path(tmp, 'cyphers.txt').write_text('# comment' + chr(10) + cy + chr(10))
-                for n in ('test_certificate.pem', 'test_private_key.pem'):
-                    pathlib.Path(tmp, n).write_bytes((lk.CERT_DIR / n).read_bytes())
-                c = certloader.mk_ssl_contexts_from_folder(tmp, 'test_private_key.pem', 'test_certificate.pem',
-                                                           'test_certificate.pem' if ca_file else None,
-                                                           'cyphers.txt' if cyphers else None, 'password')
+            # the repository folder holds no cipher file (and the harness must not write files): cipher string only via mk_ssl_contexts
+            c = certloader.mk_ssl_contexts_from_folder(lk.CERT_DIR, 'test_private_key.pem', 'test_certificate.pem',
+                                                       'test_certificate.pem' if ca_file else None, None, 'password')
         else:
             c = certloader.mk_ssl_contexts(key, cert, cert if ca_file else None, cy, 'password')
         orc.check(c.client_context.protocol == ssl.PROTOCOL_TLS_CLIENT, 'client_context_wrong_protocol')
